@@ -728,7 +728,10 @@ theorem run_spec (cfg : Config) : ∀ (us : List DUnit), (∀ u ∈ us, unitWF u
     constructor
     · intro p d _; simp [run, VState.fresh, specRun]
     · intro s c hr _
-      simp [run, hr.lastPI, specRun]
+      simp only [run, hr.lastPI, specRun]
+      cases hc : checkLastNext s with
+      | ok _ => simp
+      | error v => simp [VC2.Proofs.Stream.toVerdict_ne_ok v]
   | cons u rest ih =>
     intro hwf
     have hwu : unitWF u = true := hwf u List.mem_cons_self
